@@ -92,12 +92,13 @@ Delay(G, e, t) == IF t = INF THEN [f \in DOMAIN G \ {e} |-> G[f]] ELSE [G EXCEPT
 
 (* Betti numbers of the sublevel flag complex at s, by the definition (explicit sets of cycles    *)
 (* and boundaries over Z_2)                                                                        *)
-SublevelBetti(VV, G, s) ==
+SublevelBettiTab(VV, G, S) ==      \* the table s -> (k -> Betti number k of the sublevel complex at s), s in S
   LET F == FlagF(VV, G)
       q == FSeq(F)
       C == FlagCells(F, q, 2)
-      j == Cardinality({i \in DOMAIN q : F[q[i]] <= s})
-  IN  [k \in 0..(Cardinality(VV) - 1) |-> DefBetti(C, k, j, 2)]
+  IN  Tab([s \in S |->
+             LET j == Cardinality({i \in DOMAIN q : F[q[i]] <= s})
+             IN  Tab([k \in 0..(Cardinality(VV) - 1) |-> DefBetti(C, k, j, 2)])])
 (* the same numbers read off a diagram *)
 DiagramBetti(D, k, s) ==
   FoldSet(LAMBDA x, acc : acc + x.n, 0, {x \in D : x.dim = k /\ x.b <= s /\ s < x.d})
